@@ -26,6 +26,31 @@ int g_answered;                       /* number of ActorImpl::simcall_answer cal
 size_t g_ans_log[QCAP + 2];           /* ghost rank (vf_rank) of the actors answered, in call order */
 int g_registered;                     /* number of register_simcall calls */
 
+/* ---- s4u layer (Barrier::wait): the simcall machinery is a model (bodies below), the calls wait() makes are logged ---- */
+struct Barrier g_bar;                 /* the s4u object, pimpl_ == &g_b */
+struct ActorImpl* g_self;             /* what ActorImpl::self() returns: the calling actor */
+int g_mc_active, g_mc_replay;         /* what MC_is_active() / MC_record_replay_is_active() return */
+int g_in_kernel;                      /* 1 while maestro runs the closure of a simcall (kernel context), else 0 */
+#define EV_ANSWERED_IN 1              /* a simcall_answered hands its closure to maestro */
+#define EV_ANSWERED_OUT 2             /* ... and the caller is rescheduled unconditionally */
+#define EV_BLOCKING_IN 3              /* a simcall_blocking hands its closure to maestro */
+#define EV_BLOCKING_OUT 4             /* ... the caller resumes only when somebody calls simcall_answer() on it */
+#define EV_ARRIVE 5                   /* call of BarrierImpl::acquire_async */
+#define EV_WAITFOR 6                  /* call of BarrierAcquisitionImpl::wait_for */
+#define NEV 8
+int g_ev[NEV];                        /* ghost log of the events above, in order */
+int g_nev;
+_Bool g_ev_overflow;
+struct BarrierImpl* g_arr_bar;        /* arguments / result of the (last) logged arrival */
+struct ActorImpl* g_arr_issuer;
+struct BarrierAcquisitionImpl* g_arr_ret;
+struct BarrierAcquisitionImpl* g_wf_acq; /* arguments of the (last) logged wait_for */
+struct ActorImpl* g_wf_issuer;
+double g_wf_timeout;
+size_t g_snap_n, g_snap_h;            /* barrier state when the kernel was last left (or wait() entered) */
+unsigned g_snap_exp;
+_Bool g_outside_write;                /* the barrier state changed while no closure was running */
+
 #define Qh (g_b.ongoing_acquisitions_.h)
 #define Qn (g_b.ongoing_acquisitions_.n)
 #define Q(k) (g_qd[Qh + (k)])
@@ -147,18 +172,21 @@ void BarrierAcquisitionImpl__finish(struct BarrierAcquisitionImpl* self)
     __CPROVER_ensures(!(gb < __CPROVER_old(g_answered)) || g_ans_log[gb] == __CPROVER_old(g_ans_log[gb]))
     /*@ finish_keeps_the_log */;
 
-/* wait_for: only the creator may wait, no timeouts; the wait returns at once iff the group is already complete */
+/* wait_for: only the creator may wait, no timeouts; the wait returns at once iff the group is already complete.
+ * (called right after acquire_async in the same simcall: the arrivals released there are already in the log)           */
 void BarrierAcquisitionImpl__wait_for(struct BarrierAcquisitionImpl* self, struct ActorImpl* issuer, double timeout)
     __CPROVER_requires(__CPROVER_rw_ok(self, sizeof(*self)) && IS_ACTOR(self->issuer_) &&
-                       __CPROVER_r_ok(self->issuer_, sizeof(struct ActorImpl)) && vf_exc == 0 && g_registered == 0 &&
-                       g_answered == 0 && GHOSTS_OK && SIMCALLS_N(self) == 0)
+                       __CPROVER_r_ok(self->issuer_, sizeof(struct ActorImpl)) && vf_exc == 0 && 0 <= g_registered &&
+                       g_registered <= QCAP && LOG_OK && GHOSTS_OK && SIMCALLS_N(self) == 0)
+    __CPROVER_requires(g_in_kernel == 1) /*@ wait_for_runs_in_kernel_context_only */
     __CPROVER_assigns(vf_exc, g_registered, g_answered, __CPROVER_object_whole(g_ans_log), SIMCALLS_N(self))
     __CPROVER_ensures((vf_exc == VF_EXC_ABORT) == (issuer != self->issuer_ || !(timeout < 0.0)))
     /*@ wait_for_rejects_misuse */
     __CPROVER_ensures(vf_exc == 0 || vf_exc == VF_EXC_ABORT)
-    __CPROVER_ensures(vf_exc != 0 || g_registered == 1) /*@ wait_for_registers_the_waiter */
-    __CPROVER_ensures(vf_exc != 0 || g_answered == (self->granted_ ? 1 : 0)) /*@ wait_returns_iff_granted */
-    __CPROVER_ensures(vf_exc == 0 || g_answered == 0);
+    __CPROVER_ensures(vf_exc != 0 || g_registered == __CPROVER_old(g_registered) + 1) /*@ wait_for_registers_the_waiter */
+    __CPROVER_ensures(vf_exc != 0 || g_answered == __CPROVER_old(g_answered) + (self->granted_ ? 1 : 0))
+    /*@ wait_returns_iff_granted */
+    __CPROVER_ensures(vf_exc == 0 || (g_answered == __CPROVER_old(g_answered) && g_registered == __CPROVER_old(g_registered)));
 
 /* acquire_async: the arrival.  The n-th arrival of a group releases the whole group (itself included) and re-arms the
  * barrier; any earlier arrival is queued at the tail and releases nobody.                                            */
@@ -170,9 +198,13 @@ struct BarrierAcquisitionImpl* BarrierImpl__acquire_async(struct BarrierImpl* se
     __CPROVER_requires(Qn + 1 == NEXP || Qh + Qn + 1 <= QCAP)
     /* assumed from the s4u layer: the caller is not already blocked on this barrier */
     __CPROVER_requires(ALLQ(NOT_MINE))
+    __CPROVER_requires(g_in_kernel == 1) /*@ arrival_runs_in_kernel_context_only */
     __CPROVER_assigns(vf_exc, g_b.ongoing_acquisitions_.n, __CPROVER_object_whole(g_qd), GRANTED_FLAGS, g_answered,
                       __CPROVER_object_whole(g_ans_log))
+    __CPROVER_ensures(__CPROVER_is_fresh(__CPROVER_return_value, sizeof(struct BarrierAcquisitionImpl)))
+    /*@ arrival_acq_is_a_new_object */
     __CPROVER_ensures(vf_exc == 0 && __CPROVER_return_value != NULL)
+    __CPROVER_ensures(SIMCALLS_N(__CPROVER_return_value) == 0) /*@ arrival_acq_has_no_waiter_yet */
     __CPROVER_ensures(__CPROVER_return_value->issuer_ == issuer && __CPROVER_return_value->barrier_ == &g_b)
     /*@ arrival_acq_is_mine */
     __CPROVER_ensures(__CPROVER_return_value->granted_ == (oldQn + 1 == NEXP)) /*@ arrival_granted_iff_nth_of_group */
@@ -197,6 +229,151 @@ struct BarrierAcquisitionImpl* BarrierImpl__acquire_async(struct BarrierImpl* se
 /* wf_Bar of the new state follows piecewise from the clauses above (old arrivals untouched, the new one is a fresh
  * object of another issuer and not granted, or the queue is empty); stating WF over a queue that holds a heap object
  * does not terminate in the solver                                                                                   */
+
+/* ================= s4u::Barrier::wait ==========================================================================
+ * Model of the simcall layer (assumed; include/simgrid/simcall.hpp, ActorImpl::simcall_handle): the closure of a simcall
+ * is run exactly once, by maestro (kernel context), while the issuer is suspended.  After simcall_answered the issuer is
+ * rescheduled unconditionally; after simcall_blocking it resumes only when somebody calls simcall_answer() on it, and
+ * gets the result stored in the observer.  The C model cannot suspend: it logs which kind of simcall was issued and the
+ * contract of wait() states that its return is gated by a blocking simcall that registered the caller on its own arrival. */
+static void vf_ev(int e)
+{
+  if (g_nev < NEV) {
+    g_ev[g_nev] = e;
+    g_nev++;
+  } else
+    g_ev_overflow = 1;
+}
+static void kernel_enter(int e)
+{
+  vf_ev(e);
+  if (Qn != g_snap_n || Qh != g_snap_h || g_b.expected_actors_ != g_snap_exp)
+    g_outside_write = 1;
+  g_in_kernel = 1;
+}
+static void kernel_leave(int e)
+{
+  g_in_kernel = 0;
+  g_snap_n    = Qn;
+  g_snap_h    = Qh;
+  g_snap_exp  = g_b.expected_actors_;
+  vf_ev(e);
+}
+/* one model per instantiation of the templates (units.json template_methods): result type of the closure */
+struct BarrierAcquisitionImpl* simcall_answered__struct_BarrierAcquisitionImpl_ptr(struct vf_fn* code,
+                                                                                   struct SimcallObserver* observer)
+{
+  kernel_enter(EV_ANSWERED_IN);
+  struct BarrierAcquisitionImpl* r = ((struct BarrierAcquisitionImpl * (*)(void*)) code->fn)(code->env);
+  kernel_leave(EV_ANSWERED_OUT);
+  return r;
+}
+void simcall_answered__void(struct vf_fn* code, struct SimcallObserver* observer)
+{
+  kernel_enter(EV_ANSWERED_IN);
+  ((void (*)(void*))code->fn)(code->env);
+  kernel_leave(EV_ANSWERED_OUT);
+}
+_Bool simcall_answered__Bool(struct vf_fn* code, struct SimcallObserver* observer)
+{
+  kernel_enter(EV_ANSWERED_IN);
+  _Bool r = ((_Bool(*)(void*))code->fn)(code->env);
+  kernel_leave(EV_ANSWERED_OUT);
+  return r;
+}
+_Bool simcall_blocking__Bool(struct vf_fn* code, struct DelayedSimcallObserver_bool* observer)
+{
+  kernel_enter(EV_BLOCKING_IN);
+  ((void (*)(void*))code->fn)(code->env);
+  kernel_leave(EV_BLOCKING_OUT);
+  return observer->vf_result; /* observer->get_result() */
+}
+void DelayedSimcallObserver_bool__set_result(struct DelayedSimcallObserver_bool* self, _Bool v)
+{
+  self->vf_result = v;
+}
+struct ActorImpl* ActorImpl__self(void)
+{
+  return g_self;
+}
+int MC_is_active(void)
+{
+  return g_mc_active;
+}
+int MC_record_replay_is_active(void)
+{
+  return g_mc_replay;
+}
+/* observers: only their address is used (assumed constructors; the result slot starts undefined) */
+void BarrierObserver__ctor_bar(struct BarrierObserver* self, struct ActorImpl* actor, int type, struct BarrierImpl* bar)
+    __CPROVER_requires(__CPROVER_rw_ok(self, sizeof(*self))) __CPROVER_assigns(*self);
+void BarrierObserver__ctor_acq(struct BarrierObserver* self, struct ActorImpl* actor, int type,
+                               struct BarrierAcquisitionImpl* acq, double timeout)
+    __CPROVER_requires(__CPROVER_rw_ok(self, sizeof(*self))) __CPROVER_assigns(*self);
+
+/* ghost wrappers around the two calls wait() must make (units.json call_hooks): log, then make the real call (which the
+ * harness replaces by the contract proved above) */
+struct BarrierAcquisitionImpl* hook_acquire_async(struct BarrierImpl* b, struct ActorImpl* issuer)
+{
+  vf_ev(EV_ARRIVE);
+  g_arr_bar    = b;
+  g_arr_issuer = issuer;
+  g_arr_ret    = BarrierImpl__acquire_async(b, issuer);
+  return g_arr_ret;
+}
+void hook_wait_for(struct BarrierAcquisitionImpl* a, struct ActorImpl* issuer, double timeout)
+{
+  vf_ev(EV_WAITFOR);
+  g_wf_acq     = a;
+  g_wf_issuer  = issuer;
+  g_wf_timeout = timeout;
+  BarrierAcquisitionImpl__wait_for(a, issuer, timeout);
+}
+#define VF_CALL_BarrierImpl__acquire_async(b, i) hook_acquire_async(b, i)
+#define VF_CALL_BarrierAcquisitionImpl__wait_for(a, i, t) hook_wait_for(a, i, t)
+
+#define NOT_ME(k) (!((k) < Qn) || A(k).issuer_ != g_self)
+#define EV4(a, b, c, d) (!g_ev_overflow && g_nev == 4 && g_ev[0] == (a) && g_ev[1] == (b) && g_ev[2] == (c) && g_ev[3] == (d))
+#define EV6(a, b, c, d, e, f)                                                                                          \
+  (!g_ev_overflow && g_nev == 6 && g_ev[0] == (a) && g_ev[1] == (b) && g_ev[2] == (c) && g_ev[3] == (d) &&             \
+   g_ev[4] == (e) && g_ev[5] == (f))
+#define MC_RUN (g_mc_active != 0 || g_mc_replay != 0)
+/* wait(): one arrival of the caller, made in kernel context; the caller then blocks on THAT arrival (so it resumes when
+ * BarrierAcquisitionImpl::finish answers it, i.e. when its group is complete - contracts above); nothing else touches
+ * the barrier.  Plain run: both in ONE blocking simcall; MC / replay: arrival in an answered simcall, then the wait.    */
+int Barrier__wait(struct Barrier* self)
+    __CPROVER_requires(self == &g_bar && g_bar.pimpl_ == &g_b && WF_BAR && WF_ACTORS && IS_ACTOR(g_self) &&
+                       vf_exc == 0 && g_answered == 0 && g_registered == 0 && GHOSTS_OK && ALLQ(LINK) && ALLQ(RANKED))
+    __CPROVER_requires(Qn + 1 == NEXP || Qh + Qn + 1 <= QCAP)
+    /* the head offset of the deque model is not observable; acquire_async is proved for every offset, its caller is
+     * checked at offset 0 (a symbolic offset in the precondition of the replaced contract costs > 10 GB)             */
+    __CPROVER_requires(Qh == 0)
+    /* the caller is running, hence not blocked on this barrier */
+    __CPROVER_requires(ALLQ(NOT_ME))
+    __CPROVER_requires(g_in_kernel == 0 && g_nev == 0 && !g_ev_overflow && !g_outside_write && g_snap_n == Qn &&
+                       g_snap_h == Qh && g_snap_exp == g_b.expected_actors_)
+    __CPROVER_assigns(vf_exc, g_b.ongoing_acquisitions_.n, __CPROVER_object_whole(g_qd), GRANTED_FLAGS, g_answered,
+                      __CPROVER_object_whole(g_ans_log), g_registered, g_in_kernel, g_nev, __CPROVER_object_whole(g_ev),
+                      g_ev_overflow, g_arr_bar, g_arr_issuer, g_arr_ret, g_wf_acq, g_wf_issuer, g_wf_timeout, g_snap_n,
+                      g_snap_h, g_snap_exp, g_outside_write)
+    __CPROVER_ensures(vf_exc == 0) /*@ wait_never_aborts */
+    __CPROVER_ensures(MC_RUN || EV4(EV_BLOCKING_IN, EV_ARRIVE, EV_WAITFOR, EV_BLOCKING_OUT))
+    /*@ plain_wait_is_one_blocking_simcall_arrival_then_wait_for */
+    __CPROVER_ensures(!MC_RUN ||
+                      EV6(EV_ANSWERED_IN, EV_ARRIVE, EV_ANSWERED_OUT, EV_BLOCKING_IN, EV_WAITFOR, EV_BLOCKING_OUT))
+    /*@ mc_wait_is_an_answered_arrival_then_a_blocking_wait_for */
+    __CPROVER_ensures(g_nev >= 1 && g_nev <= NEV && g_ev[g_nev - 1] == EV_BLOCKING_OUT)
+    /*@ wait_returns_only_when_a_blocking_simcall_is_answered */
+    __CPROVER_ensures(g_arr_bar == &g_b && g_arr_issuer == g_self) /*@ wait_arrives_once_as_the_caller_on_its_barrier */
+    __CPROVER_ensures(g_wf_acq == g_arr_ret && g_wf_issuer == g_self && g_wf_timeout < 0.0)
+    /*@ wait_blocks_on_its_own_arrival_without_timeout */
+    __CPROVER_ensures(g_registered == 1) /*@ wait_registers_the_caller_exactly_once */
+    __CPROVER_ensures(g_arr_ret->granted_ == (oldQn + 1 == NEXP)) /*@ wait_is_released_at_once_iff_nth_of_group */
+    __CPROVER_ensures(!g_outside_write && g_in_kernel == 0 && Qn == g_snap_n && Qh == g_snap_h &&
+                      g_b.expected_actors_ == g_snap_exp)
+    /*@ wait_changes_the_barrier_only_inside_simcalls */
+    __CPROVER_ensures(MC_RUN || (__CPROVER_return_value != 0) == (oldQn + 1 == NEXP))
+    /*@ plain_wait_returns_true_iff_caller_completed_the_group */;
 
 /* loop 0 of acquire_async: release of the complete group, in queue order */
 #define VF_LOOP_BarrierImpl__acquire_async_0                                                                           \
@@ -246,6 +423,9 @@ static void setup(void)
   vf_exc                        = 0;
   g_answered                    = 0;
   g_registered                  = 0;
+  g_in_kernel                   = 1; /* the kernel-side units are called by maestro */
+  g_bar.pimpl_                  = &g_b;
+  g_self                        = pick_actor();
   __CPROVER_assume(GHOSTS_OK);
 }
 
@@ -296,6 +476,10 @@ void harness(void)
 void harness(void)
 {
   setup();
+  int n = nondet_int(), m = nondet_int();
+  __CPROVER_assume(0 <= n && n <= QCAP && 0 <= m && m <= QCAP);
+  g_answered   = n;
+  g_registered = m;
   BarrierAcquisitionImpl__wait_for(pick_acq(), pick_actor(), nondet_double());
   VF_CANARY_POINT;
 }
@@ -305,6 +489,29 @@ void harness(void)
 {
   setup();
   BarrierImpl__acquire_async(&g_b, pick_actor());
+  VF_CANARY_POINT;
+}
+#endif
+#if defined(H_s4u_wait_plain) || defined(H_s4u_wait_mc)
+void harness(void)
+{
+  setup();
+  g_in_kernel     = 0; /* wait() is called by an actor */
+  g_nev           = 0;
+  g_ev_overflow   = 0;
+  g_outside_write = 0;
+  Qh              = 0;
+  g_snap_n        = Qn;
+  g_snap_h        = Qh;
+  g_snap_exp      = g_b.expected_actors_;
+  g_mc_active     = nondet_int();
+  g_mc_replay     = nondet_int();
+#ifdef H_s4u_wait_plain
+  __CPROVER_assume(!MC_RUN);
+#else
+  __CPROVER_assume(MC_RUN);
+#endif
+  Barrier__wait(&g_bar);
   VF_CANARY_POINT;
 }
 #endif
